@@ -172,6 +172,20 @@ public class OrderServiceTest {
         assertTrue(true);
     }
 
+    @Test
+    public void chatty() {
+        assertTrue(true);
+        System.out.println("1");
+        assertTrue(true);
+        System.out.println("2");
+        assertTrue(true);
+        System.out.println("3");
+        assertTrue(true);
+        System.out.println("4");
+        assertTrue(true);
+        System.out.println("5");
+    }
+
     private void helper(int id) {
         assertTrue(id > 0);
     }
@@ -233,6 +247,19 @@ type Alpha struct {
 
 type Mid interface {
 	Area(scale int) int
+}
+
+type Store interface {
+	Load(id int) int
+}
+
+type store struct {
+	items []string
+}
+
+func (s store) Load(id int) int {
+	fmt.Println(id)
+	return id
 }
 
 func (z Zeta) Hello() {
